@@ -285,9 +285,16 @@ impl<R: Rng + Send> Multiplexor<R> {
             let (stream_tx, stream_rx) = oneshot::channel();
             let flow_id = self.insert_new_flow(FlowSlot::Requested(stream_tx));
             trace!("sending `Connect`");
-            self.tx_msg_tx
+            if self
+                .tx_msg_tx
                 .send(Frame::new_connect(host, port, flow_id, self.rwnd).into())
-                .or(Err(Error::Closed))?;
+                .is_err()
+            {
+                // The task no longer takes frames: nobody will ever answer this request,
+                // so do not leave its slot behind in the flow table.
+                self.flows.write().remove(&flow_id);
+                return Err(Error::Closed);
+            }
             trace!("sending stream to user");
             let stream = stream_rx
                 .await
@@ -381,9 +388,11 @@ impl<R: Rng + Send> Multiplexor<R> {
         let (result_tx, result_rx) = oneshot::channel();
         let flow_id = self.insert_new_flow(FlowSlot::BindRequested(result_tx));
         let bnd_frame = Frame::new_bind(flow_id, bind_type, host, port);
-        self.tx_msg_tx
-            .send(bnd_frame.into())
-            .or(Err(Error::Closed))?;
+        if self.tx_msg_tx.send(bnd_frame.into()).is_err() {
+            // As in `new_stream_channel`: do not leave the slot of an unsendable request behind.
+            self.flows.write().remove(&flow_id);
+            return Err(Error::Closed);
+        }
         let result = result_rx.await.or(Err(Error::Closed))?;
         Ok(result)
     }
